@@ -45,16 +45,16 @@ def key_of(defn, msg):
     return (msg.id, tuple(ks))
 
 
-def cases_for(defn, seed):
-    alph = [payloads.field_alphabet(f, seed)[:(40 if f.pk else 5)] for f in defn.fields]
+def cases_for(defn, seed, deep=False):
+    alph = [payloads.field_alphabet(f, seed)[:(40 if f.pk else (12 if deep else 5))] for f in defn.fields]
     seen = set()
-    for b in ("mid", "max"):
+    for b in (("mid", "max", "min", "ones", "zero") if deep else ("mid", "max")):
         base = payloads.base_assignment(defn, b)
         p, n = payloads.build(defn, base)
         if (p, n) not in seen:
             seen.add((p, n))
             yield (), p, n
-        for combo, a in payloads.deviations(defn, base, alph, 1):
+        for combo, a in payloads.deviations(defn, base, alph, 2 if (deep and b == "mid" and len(defn.fields) <= 12) else 1):
             p, n = payloads.build(defn, a)
             if (p, n) not in seen:
                 seen.add((p, n))
@@ -103,7 +103,8 @@ def late_unclaimed(db, seed, idxs):
 
 
 def _task(args):
-    idxs, seed = args
+    idxs, seed = args[:2]
+    deep = len(args) > 2 and args[2]
     db = refdb.db()
     A = mapped_decoder()
     B = mapped_decoder(preferred_units=PREFS)
@@ -125,7 +126,7 @@ def _task(args):
         if any(f.pk for f in defn.fields):
             st["key_defs"] += 1
         first = True
-        for combo, p, n in cases_for(defn, seed):
+        for combo, p, n in cases_for(defn, seed, deep):
             st["cases"] += 1
             m = dec_line(A, defn.pgn, p, n)
             if m is None:
@@ -191,7 +192,7 @@ def run(ctx):
     buckets = [[] for _ in range(nb)]
     for j, i in enumerate(order):
         buckets[j % nb].append(i)
-    results = common.pmap(_task, [(b, ctx.seed) for b in buckets if b])
+    results = common.pmap(_task, [(b, ctx.seed, ctx.thorough) for b in buckets if b])
     vios, samples = [], []
     tot = {"cases": 0, "hashed": 0, "nontrivial": 0, "variants": 0, "key_defs": 0}
     glob = {}
@@ -225,7 +226,7 @@ def run(ctx):
         "rule": "cases = payloads differing from bases mid/max in one field or in one key + one non-key field; hashed = those that decode; "
                 "distinct_outcomes = distinct hashes seen; non-trivial = at least one field off base",
         "samples": samples, "definitions_with_key_fields": tot["key_defs"], "cross_process_payloads": len(xproc),
-        "bound_completed": "all single-field deviations (<=5 raws per field) and key x non-key pairs from bases mid and max", "exhaustive": True,
+        "bound_completed": ("single-field deviations from 5 bases (<=12 raws per field, all for key fields), two-field deviations from base mid for definitions of <=12 fields, key x non-key pairs" if ctx.thorough else "all single-field deviations (<=5 raws per field, all for key fields) and key x non-key pairs from bases mid and max"), "exhaustive": True,
     }
     return {"coverage": cov, "violations": vios,
             "assumptions": ["key equality is taken over the reported raw values of the fields the database flags PartOfPrimaryKey",
